@@ -1,18 +1,27 @@
 """C01 - HTTP/1 forwarding is framing-consistent: no request or response desync.
 
-Decided (structural clauses without which desync is possible):
+Decided (structural clauses without which desync is possible).  Every rule below *interprets* the anchored functions
+(mitmlint.pyint) in small abstract worlds and judges what they return / yield / write; stand-ins are anchored on definitions
+(roles), never on the text of a call site, a private constant's name or a statement's shape:
   R01.1 decision table of net/http/http1/read.py::expected_http_body_size over the abstract domain
-        {request,response} x method {GET,HEAD,CONNECT} x status {1xx,200,204,304,404} x
+        {request,response} x method {GET,HEAD,CONNECT,..} x status classes and their boundaries x
         TE {absent, chunked, "gzip, chunked", identity, gzip, unknown, non-ASCII-that-lower()-folds} x
         CL {absent, valid, invalid}  ==  RFC 9112 section 6.3 (0 / n / None=chunked / -1=until-EOF / ValueError).
   R01.2 validate_headers raises exactly on the reference set (TE+CL, duplicate TE/CL, TE on HTTP/1.0, TE on 1xx/204,
-        non-chunked-final TE on a request, unknown TE, invalid CL, invalid field name); the three regexes are checked
-        by *language* (field name == tchar+, Content-Length == 0|[1-9][0-9]*); the TE vocabulary is the 8 literals.
-  R01.3 HttpStream validates before anything is forwarded (explored on the extracted model), the rejection path
-        shape of check_invalid, and validate_headers is called whenever the option is on.
-  R01.4 reader <-> writer framing agree: make_body_reader table, the five "is chunked" predicates are the same
-        expression modulo receiver, chunk frame / terminator literals, non-chunked data is sent unchanged.
-  R01.5 the parse-error paths of Http1Server/Http1Client.read_headers close and report, never start a body reader.
+        non-chunked-final TE on a request, unknown TE, invalid CL, invalid field name).  The validity predicates are found by
+        role: whatever is applied to field names / Content-Length values is probed with boundary inputs (every octet; sign,
+        space, leading zero, non-ASCII digits) and every regular expression that such a value flows into (recorded by a `re`
+        stand-in) must have the RFC *language* and be anchored for the matching method used.  The TE vocabulary is what
+        parse_transfer_encoding accepts among the reference codings, their combinations and all literals of validate.py.
+  R01.3 HttpStream validates before anything is forwarded (explored on the extracted model); check_invalid / validate_request
+        interpreted with validate_headers refusing / accepting: rejection path (error, hooks, one protocol error to the client,
+        both states errored, server closed for responses), silent accept path, the message at hand is the one validated.
+  R01.4 reader <-> writer framing agree: make_body_reader table, read_headers installs the reader for the decided size (and
+        end_stream iff 0), send() of both classes and assemble_body write chunk frames / terminator exactly under chunked.
+  R01.5 the parse-error worlds of Http1Server/Http1Client.read_headers (head unparsable, framing undecidable) close and
+        report, answer 400 (server), never start a body reader, and the server stops parsing afterwards.
+  R01.6 Expect: 100-continue never reaches the upstream server (state_wait_for_request_headers interpreted for
+        Expect x streaming x end_stream x mode; falls back to path enumeration outside the interpreted subset).
 Not decided: byte-level equality of what an independent RFC 9112 parser reads (h11 internals, all byte streams).
 """
 
@@ -25,6 +34,8 @@ from .. import rx
 from ..absint import HeadersModel
 from ..absint import Interp
 from ..pyint import Interp as _PyInterp
+from ..pyint import ClassRef as _PClassRef
+from ..pyint import Func as _PFunc
 from ..pyint import Raised as _PRaised
 from ..pyint import Rec as _PRec
 from ..absint import Raised
@@ -50,7 +61,7 @@ from .C03 import Lifecycle
 PROP = "C01"
 REG = {
     "strength": "partial",
-    "technique": "decision tables by AST interpretation over an abstract header domain, regex language equivalence, model exploration (validate-before-forward), sibling agreement",
+    "technique": "decision tables and small-world runs by AST interpretation (role-anchored stand-ins), regex language equivalence of the patterns that validated values flow into, model exploration (validate-before-forward)",
     "claim": "the framing decision (expected_http_body_size) and the rejection set (validate_headers) equal RFC 9112 reference tables on every abstract cell; "
     "the validation regexes have exactly the RFC languages; HttpStream validates before forwarding on every explored transition; readers and writers frame alike.",
     "note": "Header values are abstract classes with one representative each; Headers.get/fields, Message.is_http11 and h11's readers are trusted models. "
@@ -126,16 +137,197 @@ class _Log:
         raise AttributeError(name)
 
 
-class _PI:
-    """pyint with the (rel, qual, {kwargs}) calling convention of the older absint interpreter"""
+class _RoleInterp(_PyInterp):
+    """pyint whose stubs are anchored on *definitions* (the role), not on the text of a call site: `fstubs` maps id(def node) of a
+    repository function / method, `cstubs` id(class node) of a repository class, to a native callable that stands in for it.  However
+    the analysed code spells the call (module alias, from-import, `self.helper()` that forwards, a local alias), the interpreter ends
+    up applying that definition and the stub answers.  One instance is reused for many cells (the per-instance caches - module
+    constants, function kinds - are the expensive part); `fresh()` resets the per-run bookkeeping."""
 
-    def __init__(self, model, externals=None):
+    def __init__(self, model, fstubs=None, cstubs=None, **kw):
+        super().__init__(model, **kw)
+        self.fstubs = dict(fstubs or {})
+        self.cstubs = dict(cstubs or {})
+
+    def fresh(self):
+        self.steps = 0
+        del self.writes[:]
+        return self
+
+    def apply(self, f, args, kwargs, depth, node=None):
+        if self.fstubs and isinstance(f, _PFunc) and id(f.node) in self.fstubs:
+            return self.fstubs[id(f.node)](*args, **kwargs)
+        if self.cstubs and isinstance(f, _PClassRef) and id(f.node) in self.cstubs:
+            return self.cstubs[id(f.node)](*args, **kwargs)
+        return super().apply(f, args, kwargs, depth, node)
+
+    def cmp(self, op, a, b, node):
+        # bound methods compare equal when they are the same function of the same object (`assert self.state == self.read_body`);
+        # pyint's Func has identity comparison only
+        if isinstance(a, _PFunc) and isinstance(b, _PFunc) and isinstance(op, (ast.Eq, ast.NotEq)):
+            same = a.node is b.node and a.bound is b.bound
+            return same if isinstance(op, ast.Eq) else not same
+        return super().cmp(op, a, b, node)
+
+
+class _RecPattern:
+    """a compiled pattern of the recording `re` stand-in: behaves like the real one, remembers what it was applied to"""
+
+    def __init__(self, owner, pattern, flags):
+        import re as _re
+
+        self._owner, self.pattern, self.flags = owner, pattern, int(flags)
+        try:
+            self._p = _re.compile(pattern, flags)
+        except _re.error as e:
+            raise _PRaised("error", str(e))
+
+    def _use(self, how, subject, *a):
+        self._owner.uses.append((self.pattern, self.flags, how, subject))
+        return getattr(self._p, how)(subject, *a)
+
+    def match(self, subject, *a):
+        return self._use("match", subject, *a)
+
+    def fullmatch(self, subject, *a):
+        return self._use("fullmatch", subject, *a)
+
+    def search(self, subject, *a):
+        return self._use("search", subject, *a)
+
+    def __getattr__(self, name):
+        return getattr(self._p, name)
+
+
+class _RecRe:
+    """Trusted stand-in for the module `re`: the real engine, but every match / fullmatch / search is recorded as
+    (pattern, flags, method, subject).  A validity predicate is then found through the *values that flow into it* (the header
+    names / the Content-Length values of the cells), whatever the constant holding the compiled pattern is called and however the
+    pattern text was put together."""
+
+    def __init__(self):
+        self.uses = []
+
+    def compile(self, pattern, flags=0):
+        if isinstance(pattern, _RecPattern):
+            return pattern
+        return _RecPattern(self, pattern, flags)
+
+    def match(self, pattern, string, flags=0):
+        return self.compile(pattern, flags).match(string)
+
+    def fullmatch(self, pattern, string, flags=0):
+        return self.compile(pattern, flags).fullmatch(string)
+
+    def search(self, pattern, string, flags=0):
+        return self.compile(pattern, flags).search(string)
+
+    def __getattr__(self, name):
+        import re as _re
+
+        return getattr(_re, name)
+
+
+class _BufModel:
+    """Trusted stand-in for h11's ReceiveBuffer holding one complete message head (stateless: a generator replay sees the same)."""
+
+    def __init__(self, lines):
+        self._lines = tuple(lines)
+
+    def maybe_extract_lines(self):
+        return [bytearray(x) for x in self._lines]
+
+    def maybe_extract_at_most(self, n):
+        return None
+
+    def __bool__(self):
+        return bool(self._lines)
+
+    def __bytes__(self):
+        return b"\r\n".join(self._lines) + b"\r\n\r\n" if self._lines else b""
+
+    def __len__(self):
+        return len(bytes(self))
+
+    def __iadd__(self, other):
+        return self
+
+
+class _ReaderModel:
+    """Trusted stand-in for the three h11 body readers, only as far as C01 needs them: which framing was chosen (compared by value);
+    called on the buffer it asks for more data (None), so the head -> body transition of read_headers can be followed."""
+
+    def __init__(self, kind, n=None):
+        self.kind, self.n = kind, n
+
+    def __call__(self, buf):
+        return None
+
+    def read_eof(self):
+        return None
+
+    def key(self):
+        return (self.kind, self.n) if self.n is not None else self.kind
+
+    def __eq__(self, other):
+        return isinstance(other, _ReaderModel) and self.key() == other.key()
+
+    def __hash__(self):
+        return hash(self.key())
+
+    def __repr__(self):
+        return f"{self.kind}Reader({'' if self.n is None else self.n})"
+
+
+class _H11Readers:
+    ChunkedReader = staticmethod(lambda: _ReaderModel("Chunked"))
+    Http10Reader = staticmethod(lambda: _ReaderModel("Http10"))
+    ContentLengthReader = staticmethod(lambda length: _ReaderModel("ContentLength", length))
+
+
+class _H11ReceiveBuffer:
+    ReceiveBuffer = staticmethod(lambda: _BufModel(()))
+
+
+class _H11Model:
+    """Trusted stand-in for the package `h11` (handed to pyint as a trusted module, so `import h11`, `from h11._readers import X`,
+    `from h11 import _readers as r` ... all resolve to it)."""
+
+    _readers = _H11Readers
+    _receivebuffer = _H11ReceiveBuffer
+
+    class Data:
+        pass
+
+    class EndOfMessage:
+        pass
+
+    class ProtocolError(Exception):
+        pass
+
+    class RemoteProtocolError(Exception):
+        pass
+
+
+def _reader_key(v):
+    return v.key() if isinstance(v, _ReaderModel) else v
+
+
+class _PI:
+    """pyint with the (rel, qual, {kwargs}) calling convention of the older absint interpreter.  One interpreter is shared by all
+    cells of a table (the functions are pure; the step bound is per call)."""
+
+    def __init__(self, model, externals=None, re_module=None):
         self.model, self.externals = model, externals
+        self.re = re_module
+        self._shared = None
 
     def _it(self):
         import re as _re
 
-        return _PyInterp(self.model, trusted_modules={"re": _re, "logging": _Log()}, externals=self.externals)
+        if self._shared is None:
+            self._shared = _RoleInterp(self.model, trusted_modules={"re": self.re or _re, "logging": _Log(), "h11": _H11Model}, externals=self.externals)
+        return self._shared.fresh()
 
     def call(self, rel, qual, kwargs):
         return self._it().call(rel, qual, **kwargs)
@@ -151,7 +343,8 @@ def check(ctx):
     ctx.rule("R01.5", "header parse errors close + report and never start a body reader")
     ctx.rule("R01.6", "Expect: 100-continue is tested on every forwarding path of state_wait_for_request_headers and removed when answered (an interim 100 from upstream would desync responses)")
     m = ctx.model
-    it = _PI(m)
+    rec_re = _RecRe()
+    it = _PI(m, re_module=rec_re)
     ctx.func(READ, "expected_http_body_size")
     ctx.func(VAL, "validate_headers")
     ctx.func(VAL, "parse_transfer_encoding")
@@ -179,7 +372,7 @@ def check(ctx):
                     req = _PRec("Request", method=method, headers=h if kind == "request" else headers_of(None, None))
                     resp = None if kind == "request" else _PRec("Response", status_code=status, headers=h)
                     try:
-                        got = it.call(READ, "expected_http_body_size", {"request": req, "response": resp})
+                        got = it._it().call(READ, "expected_http_body_size", req, resp)
                     except (Raised, _PRaised) as r:
                         got = r.name
                     cells += 1
@@ -198,6 +391,7 @@ def check(ctx):
         ctx.ok("R01.1", f"{cells} cells equal the RFC 9112 6.3 reference")
 
     # ---- R01.2 table
+    del rec_re.uses[:]
     bad = 0
     cells2 = 0
     te_lists = {"none": [], "chunked": [b"chunked"], "gzip+chunked": [b"gzip, chunked"], "gzip": [b"gzip"], "identity": [b"identity"], "unknown": [b"bogus"],
@@ -217,7 +411,7 @@ def check(ctx):
                         msg = _PRec("Request" if kind == "request" else "Response", _bases=("Message",), headers=HeadersModel(fields), is_http11=http11,
                                   http_version="HTTP/1.1" if http11 else "HTTP/1.0", status_code=status)
                         try:
-                            it.call(VAL, "validate_headers", {"message": msg})
+                            it._it().call(VAL, "validate_headers", msg)
                             got = "accept"
                         except (Raised, _PRaised) as r:
                             got = "reject" if r.name == "ValueError" else f"raises {r.name}"
@@ -246,33 +440,134 @@ def check(ctx):
     ctx.require(cells2 >= 2 * 2 * 40 * (1 + 8), f"expected at least {2 * 2 * 40 * 9} validation cells, enumerated {cells2}")
     if not bad:
         ctx.ok("R01.2", f"{cells2} cells: rejection set equals the reference")
-    # regex languages
-    mod = m.module(VAL)
+    # ---- R01.2, the validity predicates, by *role*: the header-name predicate is whatever validate_headers applies to the field names,
+    # the Content-Length predicate whatever parse_content_length applies to its argument (bytes and str).  Two decisions each:
+    #  (a) a boundary sample of hostile inputs is run through the interpreted functions and must be accepted / refused like the RFC grammar;
+    #  (b) every regular expression that was applied to such a value (recorded by the `re` stand-in: the private constant's name, how the
+    #      pattern text is assembled and where it is compiled do not matter) must have exactly the RFC *language*, anchored for the
+    #      matching method used (fullmatch | match + end anchor | search + both anchors).
+    import re as _re
+    from re import _constants as _sc  # type: ignore[attr-defined]
 
-    def pattern_of(name):
-        vals = mod.assigns(name)
-        ctx.require(vals, f"{VAL}::{name} vanished")
-        pats = rx.find_call_patterns(vals[-1], funcs=("compile",))
-        ctx.require(len(pats) == 1, f"{name} is no longer re.compile(<literal>)")
-        return pats[0][1], pats[0][2]
+    name_subjects = {n.lower() for n in (b"Transfer-Encoding", b"content-length", b"X-Ok", b"Bad Name")}
+    cl_subjects = {v for vs in cl_lists.values() for v in vs}
+    uses_name = {(p_, f_, how) for p_, f_, how, subj in rec_re.uses if isinstance(subj, (bytes, bytearray)) and bytes(subj).lower() in name_subjects}
+    uses_cl = {(p_, f_, how) for p_, f_, how, subj in rec_re.uses if isinstance(subj, (bytes, bytearray)) and bytes(subj) in cl_subjects}
+    del rec_re.uses[:]
+    ctx.func(VAL, "parse_content_length")
+
+    def _parse_cl(v):
+        try:
+            r = it._it().call(VAL, "parse_content_length", v)
+        except (Raised, _PRaised) as r_:
+            return "reject" if r_.name == "ValueError" else f"raises {r_.name}"
+        return r
+
+    tchars = set(b"!#$%&'*+-.^_`|~0123456789ABCDEFGHIJKLMNOPQRSTUVWXYZabcdefghijklmnopqrstuvwxyz")
+    ref_cl = _re.compile(r"(?:0|[1-9][0-9]*)\Z", _re.ASCII)
+    cl_samples = ["", "0", "00", "01", "1", "7", "10", "12", "109", "9" * 25, "+1", "-1", "+0", "-0", " 1", "1 ", "1\t", "\t1", "1e3", "0x10", "0b1", "1_0", "1.0", "1,2", "12a", "a12", "1 2",
+                  "12;", "12\x00", "\uff11\uff12", "\u0661\u0662", "\u00b2", "1\u0662", "0\u0660"]
+    badcl = []
+    for sv in cl_samples:
+        for v in (sv, sv.encode("utf8")):
+            want = int(sv) if ref_cl.match(sv) else "reject"
+            got = _parse_cl(v)
+            ctx.cells += 1
+            if got != want or type(got) is not type(want):
+                badcl.append(f"parse_content_length({v!r}) -> {got!r}, the RFC grammar says {want!r}")
+    str_probe = [_parse_cl("12"), _parse_cl("1e3")]
+    uses_cl_str = {(p_, f_, how) for p_, f_, how, subj in rec_re.uses if isinstance(subj, str)}
+    uses_cl |= {(p_, f_, how) for p_, f_, how, subj in rec_re.uses if isinstance(subj, (bytes, bytearray))}
+    ctx.check(not badcl and str_probe == [12, "reject"], "R01.2", (VAL, "parse_content_length", m.func(VAL, "parse_content_length")), "Content-Length grammar (boundary sample)",
+              "a Content-Length value is judged differently from 1*DIGIT without sign/space/leading zero: " + "; ".join(badcl[:3]), desc=f"parse_content_length == RFC grammar on {2 * len(cl_samples)} boundary inputs")
+    badnm = []
+    del rec_re.uses[:]
+    probes = [b""] + [nm for c in range(256) if c not in (10, 13) for nm in (bytes([c]), b"A" + bytes([c]) + b"b")]
+    # (CR / LF never reach validate_headers inside a name: _read_headers splits on them - left undecided)
+    for nm in probes:
+        msg = _PRec("Request", _bases=("Message",), headers=HeadersModel([(b"X-Ok", b"1"), (nm, b"x")]), is_http11=True, http_version="HTTP/1.1", status_code=None)
+        try:
+            it._it().call(VAL, "validate_headers", msg)
+            got = "accept"
+        except (Raised, _PRaised) as r:
+            got = "reject" if r.name == "ValueError" else f"raises {r.name}"
+        ctx.cells += 1
+        want = "accept" if nm and set(nm) <= tchars else "reject"
+        if got != want:
+            badnm.append(f"field name {nm!r}: {got}, RFC 9110 token says {want}")
+    probe_names = {nm.lower() for nm in probes} | {b"x-ok"}
+    uses_name |= {(p_, f_, how) for p_, f_, how, subj in rec_re.uses if isinstance(subj, (bytes, bytearray)) and bytes(subj).lower() in probe_names}
+    ctx.check(not badnm, "R01.2", (VAL, "validate_headers", fn_val), "field-name grammar (every octet)", "a field name is judged differently from token = 1*tchar: " + "; ".join(badnm[:3]),
+              desc="validate_headers: field name == 1*tchar for every octet (alone and inside a name)")
+
+    def _anchored(pat, flags, how):
+        """is `pat` applied with method `how` a whole-string test?  Structural (top-level anchors) with a behavioural fallback."""
+        if how == "fullmatch":
+            return True
+        items = list(rx.parse(pat, flags))
+        ends = {getattr(_sc, "AT_END", None), getattr(_sc, "AT_END_STRING", None)}
+        begins = {getattr(_sc, "AT_BEGINNING", None), getattr(_sc, "AT_BEGINNING_STRING", None)}
+        multiline = bool((rx.parse(pat, flags).state.flags | flags) & _re.MULTILINE)
+        end_ok = bool(items) and items[-1][0] is _sc.AT and items[-1][1] in ends and not multiline
+        begin_ok = how == "match" or (bool(items) and items[0][0] is _sc.AT and items[0][1] in begins and not multiline)
+        if end_ok and begin_ok:
+            return True
+        # behavioural fallback (the pattern is anchored in some other way, e.g. inside a group): no accepted word may be extended
+        cp = _re.compile(pat, flags)
+        probe = getattr(cp, how)
+        is_b = isinstance(pat, bytes)
+        words = ["0", "7", "12", "X-Ok", "a"]
+        junk = [" ", "x", "+", ":", "\x00", "\t"]
+        for w in words:
+            ww = w.encode() if is_b else w
+            if probe(ww) is None:
+                continue
+            for j in junk:
+                jj = j.encode() if is_b else j
+                if (probe(ww + jj) is not None and getattr(cp, "fullmatch")(ww + jj) is None) or (how == "search" and probe(jj + ww) is not None and getattr(cp, "fullmatch")(jj + ww) is None):
+                    return False
+        return True
 
     tchar = rb"[!#$%&'*+.^_`|~0-9A-Za-z-]+"
-    for name, ref in (("_valid_header_name", tchar), ("_valid_content_length", rb"0|[1-9][0-9]*"), ("_valid_content_length_str", r"0|[1-9][0-9]*")):
-        pat, flags = pattern_of(name)
-        a, b = rx.nfa_of(pat, flags), rx.nfa_of(ref)
-        only_code, only_ref = rx.compare(a, b)
-        ctx.check(only_code is None and only_ref is None, "R01.2", (VAL, "<module>", mod.assigns(name)[-1]), f"{name} language",
-                  f"accepts {rx.show(only_code)} which the RFC grammar does not / misses {rx.show(only_ref)}", desc=f"{name} == RFC grammar")
-    # match() is used, so the pattern must be end-anchored (checked through the language above: ^...$ are empty in the NFA, so also require the anchors)
-    for name in ("_valid_header_name", "_valid_content_length", "_valid_content_length_str"):
-        pat, _ = pattern_of(name)
-        s = pat.decode() if isinstance(pat, bytes) else pat
-        ctx.check(s.endswith("$") and not s.endswith("\\$"), "R01.2", (VAL, "<module>", mod.assigns(name)[-1]), f"{name} end anchor",
-                  "pattern used with .match() is not anchored at the end: a valid prefix followed by garbage would pass", desc=f"{name} anchored")
-    vocab = it._it().ev(mod.assigns("_HTTP_1_1_TRANSFER_ENCODINGS")[-1], {}, mod, 0)
+    n_rx = 0
+    for role, uses, ref, where_fn in (("field-name", uses_name, tchar, "validate_headers"), ("Content-Length (bytes)", uses_cl, rb"0|[1-9][0-9]*", "parse_content_length"),
+                                      ("Content-Length (str)", uses_cl_str, r"0|[1-9][0-9]*", "parse_content_length")):
+        for pat, flags, how in sorted(uses, key=repr):
+            if isinstance(ref, bytes) != isinstance(pat, bytes):
+                ref_ = ref.decode() if isinstance(ref, bytes) else ref.encode()
+            else:
+                ref_ = ref
+            a_, b_ = rx.nfa_of(pat, flags), rx.nfa_of(ref_, _re.ASCII if isinstance(ref_, str) else 0)
+            only_code, only_ref = rx.compare(a_, b_)
+            n_rx += 1
+            ctx.check(only_code is None and only_ref is None, "R01.2", (VAL, where_fn, m.func(VAL, where_fn)), f"{role} pattern language",
+                      f"the regular expression applied to a {role} value accepts {rx.show(only_code)} which the RFC grammar does not / misses {rx.show(only_ref)}", desc=f"{role} regex == RFC grammar")
+            ctx.check(_anchored(pat, flags, how), "R01.2", (VAL, where_fn, m.func(VAL, where_fn)), f"{role} pattern anchoring",
+                      f"the pattern is used with .{how}() but is not anchored accordingly: a valid prefix followed by garbage would pass", desc=f"{role} regex anchored for .{how}()")
+    if not n_rx:
+        ctx.note("R01.2: no regular expression is applied to field names / Content-Length values on this tree; the predicates were decided on the boundary samples only")
+    # the transfer-coding vocabulary = what parse_transfer_encoding accepts (normalised), probed with the reference codings, their
+    # combinations, other registered / plausible codings and every string literal validate.py itself mentions
+    ctx.func(VAL, "parse_transfer_encoding")
     ref_vocab = {"chunked", "compress,chunked", "deflate,chunked", "gzip,chunked", "compress", "deflate", "gzip", "identity"}
-    ctx.check(set(vocab) == ref_vocab, "R01.2", (VAL, "<module>", mod.assigns("_HTTP_1_1_TRANSFER_ENCODINGS")[-1]), "transfer-coding vocabulary",
-              f"vocabulary {sorted(vocab)} differs from the 8 accepted codings", desc="TE vocabulary")
+    mod = m.module(VAL)
+    words = {"chunked", "compress", "deflate", "gzip", "identity", "br", "zstd", "x-gzip", "x-compress", "trailers", "bogus", "", "*", "chunk", "none"}
+    lits = {c.value.strip().lower() for c in ast.walk(mod.tree) if isinstance(c, ast.Constant) and isinstance(c.value, str) and 0 < len(c.value) <= 24 and "\n" not in c.value and " " not in c.value.strip()}
+    words |= {w for l_ in lits for w in l_.split(",")} | lits
+    cands = set(words) | {f"{a_},{b_}" for a_ in words for b_ in ("chunked", "gzip", "identity")} | {f"chunked,{a_}" for a_ in words} | {"gzip,deflate,chunked", "chunked,chunked"} | lits
+    accepted = set()
+    for cand in sorted(cands):
+        try:
+            r = it._it().call(VAL, "parse_transfer_encoding", cand)
+        except (Raised, _PRaised) as r_:
+            ctx.require(r_.name == "ValueError", f"parse_transfer_encoding({cand!r}) raises {r_.name}")
+            continue
+        finally:
+            ctx.cells += 1
+        accepted.add(cand)
+        ctx.require(r == cand, f"parse_transfer_encoding({cand!r}) returns {r!r}: normalisation not modelled")
+    ctx.check(accepted == ref_vocab, "R01.2", (VAL, "parse_transfer_encoding", m.func(VAL, "parse_transfer_encoding")), "transfer-coding vocabulary",
+              f"accepted codings differ from the 8 reference codings: extra {sorted(accepted - ref_vocab)}, missing {sorted(ref_vocab - accepted)}", desc=f"TE vocabulary == 8 codings ({len(cands)} candidates probed)")
 
     # ---- R01.3
     class ValidateFirst(Lifecycle):
@@ -302,45 +597,94 @@ def check(ctx):
         ctx.fail("R01.3", (REL, "HttpStream", entry), msg[6:], "an unvalidated (possibly ambiguous) message head is processed or forwarded")
     if not msgs:
         ctx.ok("R01.3", f"{res['transitions']} transitions: check_invalid precedes every hook/forward on header events")
-    # rejection path shape
+    # rejection / accept path of check_invalid and validate_request, decided by *interpreting* them (mitmlint.pyint) in worlds where
+    # validate_headers - stubbed on its definition - refuses or accepts the head: parameter / local names, helper extraction, `if` shape
+    # and how the option is read do not matter.  With the option on, the message that is about to be processed must be the one validated.
     ci = ctx.func(REL, "HttpStream.check_invalid")
-    for request in (True, False):
-        eng = Engine(HttpStreamSpec(m))
-        finals = eng.finals(ci, State((), init_env()), {"request": C(request)})
-        rej = [f for f in finals if f.get("$ret") == C(True)]
-        acc = [f for f in finals if f.get("$ret") == C(False)]
-        ctx.require(rej and acc, "check_invalid lost its accept or reject path")
-        for f in rej:
-            t = f.trace
-            sends = [e for e in t if e[0] == "send"]
-            hooks = [e[1] for e in t if e[0] == "hook"]
-            good = (
-                sends == [("send", "ResponseProtocolError", "client")]
-                and hooks == (["HttpRequestHeadersHook", "HttpErrorHook"] if request else ["HttpErrorHook"])
-                and ("set", "self.client_state", "self.state_errored") in t
-                and ("set", "self.server_state", "self.state_errored") in t
-                and ("live", False) in t
-                and ("error:=",) in t
-                and (request or ("close", "server") in t)
-            )
-            ctx.check(good, "R01.3", (REL, "HttpStream.check_invalid", ci), f"rejection path request={request}",
-                      f"an invalid message must end the flow with an error and be answered with a protocol error only; got sends={sends} hooks={hooks}", desc=f"rejection path shape request={request}")
-        for f in acc:
-            ctx.check(not [e for e in f.trace if e[0] in ("send", "hook", "set")], "R01.3", (REL, "HttpStream.check_invalid", ci), f"accept path request={request}", "accept path has side effects", desc=f"accept path silent request={request}")
-    # validate_headers is called whenever the option is on
     vr = ctx.func(REL, "validate_request")
-    tr, _ = traces_of(vr, GenericSpec(keep=lambda e: e[0] == "cond" or (e[0] == "call" and e[1].endswith("validate_headers")), record_conds=True))
-    on = [t for t, how, s in tr if ("cond", "validate_inbound_headers", True) in t]
-    ctx.check(bool(on) and all(any(e[0] == "call" for e in t) for t in on), "R01.3", (REL, "validate_request", vr), "validate_inbound_headers -> validate_headers(request)",
-              "requests are not validated although the option is on", desc="validate_request calls validate_headers when on")
-    tr, _ = traces_of(ci, GenericSpec(keep=lambda e: e[0] == "cond" or (e[0] == "call" and (e[1].endswith("validate_headers") or e[1].endswith("validate_request"))), record_conds=True))
-    resp_on = [t for t, how, s in tr if ("cond", "request", False) in t and ("cond", "self.context.options.validate_inbound_headers", True) in t]
-    ctx.check(bool(resp_on) and all(("call", "validate_headers") in t for t in resp_on), "R01.3", (REL, "HttpStream.check_invalid", ci), "responses: option on -> validate_headers(response)",
-              "responses are not validated although the option is on", desc="check_invalid validates responses when on")
-    req_paths = [t for t, how, s in tr if ("cond", "request", True) in t]
-    ctx.check(bool(req_paths) and all(("call", "validate_request") in t for t in req_paths), "R01.3", (REL, "HttpStream.check_invalid", ci), "requests -> validate_request(...)",
-              "requests bypass validate_request", desc="check_invalid validates requests")
-    ctx.expect_instances("R01.3", 8)
+    HTTPF = "mitmproxy/http.py"
+    FLOWF = "mitmproxy/flow.py"
+    ctx.trust("mitmproxy.http.Request/Response properties are interpreted over abstract message data; flow.Error is a plain record")
+
+    def _msg3(kind):
+        common = dict(http_version=b"HTTP/1.1", headers=HeadersModel([(b"Host", b"example.org")]), content=b"", trailers=None, timestamp_start=0.0, timestamp_end=None)
+        if kind == "Request":
+            d = _PRec("RequestData", method=b"GET", scheme=b"http", authority=b"example.org", path=b"/", host="example.org", port=80, **common)
+        else:
+            d = _PRec("ResponseData", status_code=200, reason=b"OK", **common)
+        return _PRec(kind, _bases=("Message",), _impl=(HTTPF, kind), data=d)
+
+    def _world3(refuse, option_on):
+        seen = []
+
+        def vh(message, *a, **k):
+            seen.append(message)
+            if refuse:
+                raise _PRaised("ValueError", "ambiguous framing")
+
+        cst = {id(m.cls(FLOWF, "Error")): (lambda msg=None, *a, **k: _PRec("Error", msg=msg))} if m.has(FLOWF, "Error") else {}
+        it3 = _RoleInterp(m, fstubs={id(fn_val): vh}, cstubs=cst, trusted_modules={"logging": _Log()})
+        mode = it3.getattr(_PClassRef(m.module(REL), m.cls(REL, "HTTPMode")), "regular", None, 0)
+        fl = _PRec("HTTPFlow", request=_msg3("Request"), response=_msg3("Response"), error=None, live=True, server_conn=_PRec("Server", _bases=("Connection",)), client_conn=_PRec("Client", _bases=("Connection",)))
+        me = _PRec("HttpStream", _bases=("Layer",), _impl=(REL, "HttpStream"), flow=fl, mode=mode, stream_id=1, client_state=None, server_state=None,
+                   context=_PRec("Context", options=_PRec("Options", validate_inbound_headers=option_on), client=fl.client_conn, server=fl.server_conn))
+        return it3, me, fl, mode, seen
+
+    def _fields(rec):
+        # (pyint fills dataclass fields positionally and counts the annotated class attribute Command.blocking as one: look at the values)
+        return [v for k_, v in rec.__dict__.items() if not k_.startswith("_")]
+
+    def _drive(it3, g):
+        out, k = [], 0
+        while True:
+            try:
+                kind_, v = it3.run_gen_until(g, k)
+            except _PRaised as r:
+                return out + [f"<raises {r.name}>"], None
+            if kind_ == "stop":
+                return out, v
+            out.append(v)
+            k += 1
+
+    for request in (True, False):
+        it3, me, fl, mode, seen = _world3(True, True)
+        out, ret = _drive(it3, it3.method(me, "check_invalid", request))
+        ctx.paths += 1
+        names = [getattr(c, "_cls", repr(c)) for c in out]
+        sends = [c for c in out if isinstance(c, _PRec) and c._cls == "SendHttp"]
+        hooks = [n for n in names if n.endswith("Hook")]
+        the_msg = fl.request if request else fl.response
+        st_name = lambda v: getattr(getattr(v, "node", None), "name", None)  # noqa: E731
+        good = (
+            ret is True
+            and bool(seen) and all(x is the_msg for x in seen)
+            and len(sends) == 1 and any(isinstance(v, _PRec) and v._cls == "ResponseProtocolError" for v in _fields(sends[0])) and any(v is fl.client_conn for v in _fields(sends[0]))
+            and hooks == (["HttpRequestHeadersHook", "HttpErrorHook"] if request else ["HttpErrorHook"])
+            and st_name(me.client_state) == "state_errored" and st_name(me.server_state) == "state_errored"
+            and fl.live is False
+            and fl.error is not None
+            and (request or any(isinstance(c, _PRec) and c._cls == "CloseConnection" and getattr(c, "connection", None) is fl.server_conn for c in out))
+            and not [n for n in names if n not in ("SendHttp", "CloseConnection", "Log") and not n.endswith("Hook")]
+        )
+        ctx.check(good, "R01.3", (REL, "HttpStream.check_invalid", ci), f"rejection path request={request}",
+                  f"an invalid message must end the flow with an error and be answered with a protocol error only; got commands={names} returns={ret!r} validated={len(seen)} live={fl.live!r}", desc=f"rejection path shape request={request}")
+        it3, me, fl, mode, seen = _world3(False, True)
+        out, ret = _drive(it3, it3.method(me, "check_invalid", request))
+        ctx.paths += 1
+        the_msg = fl.request if request else fl.response
+        quiet = ret is False and not out and fl.error is None and fl.live is True and me.client_state is None and me.server_state is None
+        ctx.check(quiet and bool(seen) and all(x is the_msg for x in seen), "R01.3", (REL, "HttpStream.check_invalid", ci), f"accept path request={request}",
+                  f"with validate_inbound_headers on, a valid {'request' if request else 'response'} must be validated and then accepted without side effects; commands={[getattr(c, '_cls', c) for c in out]} returns={ret!r} validated={len(seen)}",
+                  desc=f"accept path: validated, silent, request={request}")
+    it3, me, fl, mode, seen = _world3(True, True)
+    try:
+        got = it3.call(REL, "validate_request", mode, fl.request, True)
+    except _PRaised as r:
+        got = None
+        ctx.note(f"validate_request raises {r.name} when validate_headers refuses")
+    ctx.check(isinstance(got, str) and bool(got) and bool(seen) and all(x is fl.request for x in seen), "R01.3", (REL, "validate_request", vr), "validate_inbound_headers -> validate_headers(request)",
+              f"requests are not validated although the option is on (validate_request returns {got!r} for a request validate_headers refuses)", desc="validate_request refuses what validate_headers refuses when on")
+    ctx.expect_instances("R01.3", 6)
 
     # ---- R01.6  Expect: 100-continue is consumed by mitmproxy and never forwarded
     # mitmproxy answers the expectation itself and has no handling for an interim 100 response from upstream: a forwarded
@@ -348,67 +692,151 @@ def check(ctx):
     # two final responses (the second is attributed to the next request on the connection - a response desync).
     swr = ctx.func(REL, "HttpStream.state_wait_for_request_headers")
 
-    def _res(call):
-        f = call.func
-        if isinstance(f, ast.Attribute) and isinstance(f.value, ast.Name) and f.value.id == "self" and m.has(REL, "HttpStream." + f.attr):
-            d = m.func(REL, "HttpStream." + f.attr)
-            # only helpers that deal with the Expect header are seen through (extract-method refactors of the branch)
-            if isinstance(d, (ast.FunctionDef, ast.AsyncFunctionDef)) and any(isinstance(c, ast.Constant) and isinstance(c.value, str) and c.value.lower() in ("expect", "100-continue") for c in ast.walk(d)):
-                return d
-        return None
+    def _r016_by_paths():
+        _res_cache: dict = {}
 
-    def _mentions_expect(text):
-        return "expect" in text.lower() and ("headers" in text or "100-continue" in text)
+        def _res(call):
+            f = call.func
+            if isinstance(f, ast.Attribute) and isinstance(f.value, ast.Name) and f.value.id == "self":
+                if f.attr not in _res_cache:
+                    _res_cache[f.attr] = None
+                    if m.has(REL, "HttpStream." + f.attr):
+                        d = m.func(REL, "HttpStream." + f.attr)
+                        # only helpers that deal with the Expect header are seen through (extract-method refactors of the branch)
+                        if isinstance(d, (ast.FunctionDef, ast.AsyncFunctionDef)) and any(isinstance(c, ast.Constant) and isinstance(c.value, str) and c.value.lower() in ("expect", "100-continue") for c in ast.walk(d)):
+                            _res_cache[f.attr] = d
+                return _res_cache[f.attr]
+            return None
 
-    def _keep6(e):
-        if e[0] == "cond":
-            return _mentions_expect(e[1])
-        if e[0] == "call":
-            return e[1].endswith("headers.pop") or e[1].endswith("headers.__delitem__")
-        if e[0] == "del":
-            return "headers[" in e[1] and "expect" in e[1].lower()
-        if e[0] == "assign":
-            return e[1] == "self.server_state"
-        return False
+        def _mentions_expect(text):
+            return "expect" in text.lower() and ("headers" in text or "100-continue" in text)
 
-    class ExpectSpec(GenericSpec):
-        def events(self, node, st):
-            out = []
-            for ev in super().events(node, st):
-                out.append(ev)
-            # keep the popped key: ('call', '...headers.pop') carries no arguments, so add a marker for the expect key
-            for n in ast.walk(node) if not isinstance(node, (ast.If, ast.While, ast.For, ast.Try, ast.With, ast.FunctionDef)) else []:
-                if isinstance(n, ast.Call) and isinstance(n.func, ast.Attribute) and n.func.attr == "pop" and norm(n.func.value).endswith("request.headers") and n.args and isinstance(n.args[0], ast.Constant) and str(n.args[0].value).lower() == "expect":
-                    out.append(("drop-expect",))
-                if isinstance(n, ast.Delete):
-                    for t in n.targets:
-                        if isinstance(t, ast.Subscript) and norm(t.value).endswith("request.headers") and isinstance(t.slice, ast.Constant) and str(t.slice.value).lower() == "expect":
-                            out.append(("drop-expect",))
-            return out
+        def _keep6(e):
+            if e[0] == "cond":
+                return _mentions_expect(e[1])
+            if e[0] == "call":
+                return e[1].endswith("headers.pop") or e[1].endswith("headers.__delitem__")
+            if e[0] == "del":
+                return "headers[" in e[1] and "expect" in e[1].lower()
+            if e[0] == "assign":
+                return e[1] == "self.server_state"
+            return False
 
-    tr6, _ = traces_of(swr, ExpectSpec(keep=lambda e: e[0] == "drop-expect" or _keep6(e), resolver=_res, record_conds=True))
-    forwards = [t for t, how, st in tr6 if how == "return" and any(e[0] == "assign" and e[1] == "self.server_state" for e in t)]
-    ctx.require(forwards, "state_wait_for_request_headers: no path arms server_state (anchor changed)")
-    ctx.paths += len(tr6)
-    unsafe = []
-    for t in forwards:
-        dropped = ("drop-expect",) in t
-        tests = [e for e in t if e[0] == "cond" and _mentions_expect(e[1])]
-        absent = any(not e[2] and "100-continue" in e[1] or (not e[2] and "in " in e[1]) for e in tests)
-        if not (dropped or (tests and absent)):
-            unsafe.append(t)
-    ctx.check(not unsafe, "R01.6", (REL, "HttpStream.state_wait_for_request_headers", swr), "Expect: 100-continue consumed before the request is forwarded",
-              f"{len(unsafe)} of {len(forwards)} forwarding path(s) neither test the request's Expect header nor remove it: `Expect: 100-continue` reaches the upstream server, "
-              "whose interim 100 response mitmproxy would relay/record as a final response (response desync)", desc=f"{len(forwards)} forwarding paths test or strip Expect")
-    sends100 = [t for t in forwards if any(e[0] == "cond" and e[2] and "100-continue" in e[1] for e in t)]
-    ctx.check(bool(sends100) and all(("drop-expect",) in t for t in sends100), "R01.6", (REL, "HttpStream.state_wait_for_request_headers", swr), "Expect header removed when mitmproxy answers 100 Continue itself",
-              "on a path where the expectation is answered by mitmproxy the header is not removed from the forwarded request", desc="expect header popped on the 100-continue path")
+        _drops: dict = {}
+
+        def _drop_markers(node):
+            k = id(node)
+            if k not in _drops:
+                out = []
+                for n in ast.walk(node) if not isinstance(node, (ast.If, ast.While, ast.For, ast.Try, ast.With, ast.FunctionDef)) else []:
+                    if isinstance(n, ast.Call) and isinstance(n.func, ast.Attribute) and n.func.attr == "pop" and norm(n.func.value).endswith("request.headers") and n.args and isinstance(n.args[0], ast.Constant) and str(n.args[0].value).lower() == "expect":
+                        out.append(("drop-expect",))
+                    if isinstance(n, ast.Delete):
+                        for t in n.targets:
+                            if isinstance(t, ast.Subscript) and norm(t.value).endswith("request.headers") and isinstance(t.slice, ast.Constant) and str(t.slice.value).lower() == "expect":
+                                out.append(("drop-expect",))
+                _drops[k] = (node, out)
+            return _drops[k][1]
+
+        class ExpectSpec(GenericSpec):
+            def events(self, node, st):
+                # keep the popped key: ('call', '...headers.pop') carries no arguments, so add a marker for the expect key
+                return list(super().events(node, st)) + _drop_markers(node)
+
+        tr6, _ = traces_of(swr, ExpectSpec(keep=lambda e: e[0] == "drop-expect" or _keep6(e), resolver=_res, record_conds=True))
+        forwards = [t for t, how, st in tr6 if how == "return" and any(e[0] == "assign" and e[1] == "self.server_state" for e in t)]
+        ctx.require(forwards, "state_wait_for_request_headers: no path arms server_state (anchor changed)")
+        ctx.paths += len(tr6)
+        unsafe = []
+        for t in forwards:
+            dropped = ("drop-expect",) in t
+            tests = [e for e in t if e[0] == "cond" and _mentions_expect(e[1])]
+            absent = any(not e[2] and "100-continue" in e[1] or (not e[2] and "in " in e[1]) for e in tests)
+            if not (dropped or (tests and absent)):
+                unsafe.append(t)
+        ctx.check(not unsafe, "R01.6", (REL, "HttpStream.state_wait_for_request_headers", swr), "Expect: 100-continue consumed before the request is forwarded",
+                  f"{len(unsafe)} of {len(forwards)} forwarding path(s) neither test the request's Expect header nor remove it: `Expect: 100-continue` reaches the upstream server, "
+                  "whose interim 100 response mitmproxy would relay/record as a final response (response desync)", desc=f"{len(forwards)} forwarding paths test or strip Expect")
+        sends100 = [t for t in forwards if any(e[0] == "cond" and e[2] and "100-continue" in e[1] for e in t)]
+        ctx.check(bool(sends100) and all(("drop-expect",) in t for t in sends100), "R01.6", (REL, "HttpStream.state_wait_for_request_headers", swr), "Expect header removed when mitmproxy answers 100 Continue itself",
+                  "on a path where the expectation is answered by mitmproxy the header is not removed from the forwarded request", desc="expect header popped on the 100-continue path")
+
+    # Decided by *interpreting* state_wait_for_request_headers (mitmlint.pyint) for every combination of Expect header x streaming x
+    # end_stream x mode; the sub-generators that are other rules' subject (check_invalid, check_killed, check_body_size,
+    # start_request_stream, handle_connect) and Response.make / HTTPFlow are stand-ins anchored on their definitions.  Named conditions,
+    # helpers and `del` / `pop` spellings are followed.  Only if the function leaves the interpreted subset is the older path rule used.
+    from ..pyint import DictRec as _PDict
+
+    def _r016_by_interpretation():
+        HTTPF_ = "mitmproxy/http.py"
+        bad_fwd, bad_ans, n_fwd, n_ans = [], [], 0, 0
+        for expect in (None, "100-continue", "100-Continue"):
+            for stream in (False, True):
+                for end_stream in (False, True):
+                    for mode_name in ("regular", "upstream", "transparent"):
+                        seen_at_stream = []
+                        hdrs = _PDict("Headers", items=({"Expect": expect} if expect else {}) | {"Host": "example.org"}, case_insensitive=True)
+                        req = _PRec("Request", method="GET", host="example.org", port=80, scheme="http", authority="example.org", path="/", headers=hdrs, stream=stream, is_http2=False, is_http3=False,
+                                    host_header="example.org", http_version="HTTP/1.1", data=_PRec("RequestData", host="example.org", port=80))
+                        empty = lambda *a, **k: iter(())  # noqa: E731
+
+                        def srs(*a, **k):
+                            seen_at_stream.append(hdrs._items.copy())
+                            return iter(())
+
+                        fst = {}
+                        for name, stub in (("check_invalid", empty), ("check_killed", empty), ("check_body_size", empty), ("handle_connect", empty), ("start_request_stream", srs)):
+                            if m.has(REL, "HttpStream." + name):
+                                fst[id(m.func(REL, "HttpStream." + name))] = stub
+                        if m.has(HTTPF_, "Response.make"):
+                            fst[id(m.func(HTTPF_, "Response.make"))] = lambda status_code=200, *a, **k: _PRec("Response", status_code=status_code, headers=_PDict("Headers", items={"content-length": "0"}, case_insensitive=True))
+                        cst = {id(m.cls(HTTPF_, "HTTPFlow")): (lambda *a, **k: _PRec("HTTPFlow", request=None, response=None, error=None, live=False))} if m.has(HTTPF_, "HTTPFlow") else {}
+                        it6 = _RoleInterp(m, fstubs=fst, cstubs=cst, trusted_modules={"logging": _Log()})
+                        mode = it6.getattr(_PClassRef(m.module(REL), m.cls(REL, "HTTPMode")), mode_name, None, 0)
+                        client = _PRec("Client", _bases=("Connection",), tls=False, proxy_mode=_PRec("RegularMode", _bases=("ProxyMode",)))
+                        server = _PRec("Server", _bases=("Connection",), tls=False, address=("example.org", 80))
+                        me = _PRec("HttpStream", _bases=("Layer",), _impl=(REL, "HttpStream"), mode=mode, stream_id=1, client_state=None, server_state=None, flow=None,
+                                   context=_PRec("Context", client=client, server=server, options=_PRec("Options", keep_host_header=False, validate_inbound_headers=True, store_streamed_bodies=False)))
+                        ev = _PRec("RequestHeaders", _bases=("HttpEvent", "Event"), stream_id=1, request=req, end_stream=end_stream, replay_flow=None)
+                        try:
+                            out = list(it6.method(me, "state_wait_for_request_headers", ev))
+                        except _PRaised as r:
+                            raise AnalysisError(f"state_wait_for_request_headers raises {r.name} in the interpreted world")
+                        ctx.cells += 1
+                        forwarded = me.server_state is not None or bool(seen_at_stream)
+                        if not forwarded:
+                            continue
+                        n_fwd += 1
+                        cell = f"Expect={expect!r} stream={stream} end_stream={end_stream} mode={mode_name}"
+                        views = seen_at_stream + [hdrs._items]
+                        still = any(str(v).lower() == "100-continue" for view in views for k_, v in view.items() if str(k_).lower() == "expect")
+                        if still:
+                            bad_fwd.append(cell)
+                        answered = [c for c in out if isinstance(c, _PRec) and c._cls == "SendHttp" and any(v is client for v in c.__dict__.values())
+                                    and any(isinstance(v, _PRec) and v._cls == "ResponseHeaders" and any(isinstance(x, _PRec) and getattr(x, "status_code", None) == 100 for x in v.__dict__.values()) for v in c.__dict__.values())]
+                        n_ans += bool(answered)
+                        if answered and still:
+                            bad_ans.append(cell)
+        ctx.require(n_fwd >= 24, f"state_wait_for_request_headers: only {n_fwd} interpreted worlds forward the request (anchor changed)")
+        swr_ = m.func(REL, "HttpStream.state_wait_for_request_headers")
+        ctx.check(not bad_fwd, "R01.6", (REL, "HttpStream.state_wait_for_request_headers", swr_), "Expect: 100-continue consumed before the request is forwarded",
+                  f"in {len(bad_fwd)} of {n_fwd} forwarding world(s), e.g. [{(bad_fwd or [''])[0]}], `Expect: 100-continue` is still in the request that goes upstream: the origin's interim 100 response "
+                  "would be relayed/recorded as a final response (response desync)", desc=f"{n_fwd} forwarding worlds: Expect: 100-continue never reaches the server")
+        ctx.check(n_ans > 0 and not bad_ans, "R01.6", (REL, "HttpStream.state_wait_for_request_headers", swr_), "Expect header removed when mitmproxy answers 100 Continue itself",
+                  f"in {len(bad_ans)} of {n_ans} world(s) where mitmproxy answers the expectation itself, e.g. [{(bad_ans or [''])[0]}], the header is not removed from the forwarded request", desc=f"expect header gone in the {n_ans} worlds answered with 100 Continue")
+
+    try:
+        _r016_by_interpretation()
+    except AnalysisError as e:
+        ctx.note(f"R01.6: interpretation not possible ({e}); decided by path enumeration instead")
+        _r016_by_paths()
     ctx.expect_instances("R01.6", 2)
 
     # ---- R01.4
-    itr = _PI(m, externals={"ChunkedReader": lambda: "Chunked", "Http10Reader": lambda: "Http10", "ContentLengthReader": lambda n: ("ContentLength", n)})
+    # (the h11 readers are the trusted stand-ins of _H11Model, reached through whatever import style _http1.py uses)
+    itr = _PI(m)
     for arg, want in ((None, "Chunked"), (-1, "Http10"), (0, ("ContentLength", 0)), (12, ("ContentLength", 12))):
-        got = itr.call(H1, "make_body_reader", {"expected_size": arg})
+        got = _reader_key(itr._it().call(H1, "make_body_reader", arg))
         ctx.cells += 1
         ctx.check(got == want, "R01.4", (H1, "make_body_reader", m.func(H1, "make_body_reader")), f"make_body_reader({arg!r})", f"yields {got!r}, expected {want!r}: body is read with a different framing than announced",
                   desc=f"make_body_reader({arg!r}) -> {want}")
@@ -428,13 +856,22 @@ def check(ctx):
         def __repr__(self):
             return f"{self.name}({self.data!r})" if self.data is not None else self.name
 
-    def _ext():
-        send = lambda conn, data: _Cmd("SendData", data)  # noqa: E731
-        other = lambda name: (lambda *a, **k: _Cmd(name))  # noqa: E731
-        return {"commands.SendData": send, "SendData": send, "self.mark_done": lambda *a, **k: iter([_Cmd("mark_done")]),
-                "commands.CloseTcpConnection": other("CloseTcpConnection"), "CloseTcpConnection": other("CloseTcpConnection"),
-                "commands.CloseConnection": other("CloseConnection"), "CloseConnection": other("CloseConnection"), "commands.Log": other("Log"),
-                "http1.expected_http_body_size": lambda *a, **k: 0, "expected_http_body_size": lambda *a, **k: 0}
+    # stand-ins anchored on the definitions (commands.py classes, every mark_done along the two classes' MROs, expected_http_body_size):
+    # whatever name or import style the send() methods and their helpers use to reach them
+    CMDS_ = "mitmproxy/proxy/commands.py"
+    _send = lambda conn, data: _Cmd("SendData", data)  # noqa: E731
+    _other = lambda name: (lambda *a, **k: _Cmd(name))  # noqa: E731
+    w_cstubs = {id(ctx.model.cls(CMDS_, "SendData")): _send}
+    for cname in ("CloseTcpConnection", "CloseConnection", "Log"):
+        if m.has(CMDS_, cname):
+            w_cstubs[id(m.cls(CMDS_, cname))] = _other(cname)
+    w_fstubs = {id(fn_ebs): lambda *a, **k: 0}
+    for cname in ("Http1Server", "Http1Client"):
+        for _mod, c_ in m.mro(H1, cname):
+            for st_ in c_.body:
+                if isinstance(st_, ast.FunctionDef) and st_.name == "mark_done":
+                    w_fstubs[id(st_)] = lambda *a, **k: iter([_Cmd("mark_done")])
+    w_it = _RoleInterp(m, fstubs=w_fstubs, cstubs=w_cstubs, trusted_modules={"logging": _Log(), "h11": _H11Model})
 
     TE_W = {"absent": None, "chunked": "chunked", "gzip, chunked": "gzip, chunked", "Chunked": "Chunked", "identity": "identity", "gzip": "gzip"}
     DATA = b"hello, world"  # 12 bytes: the length is written in hex
@@ -456,7 +893,7 @@ def check(ctx):
                                 request_done=False, response_done=False)
 
                 def run(kind, **attrs):
-                    it = PInterp(m, externals=_ext())
+                    it = w_it.fresh()
                     ev = PRec(kind, _bases=("HttpEvent", "Event"), stream_id=1, **attrs)
                     try:
                         return [c for c in it.method(world(), "send", ev)]
@@ -505,37 +942,105 @@ def check(ctx):
             if b"".join(x if isinstance(x, bytes) else b"?" for x in got) != b"".join(want):
                 badab.append(f"TE {te_name}, chunks {chunks!r}: {got!r}")
     ctx.check(not badab, "R01.4", (ASM, "assemble_body", ab), "assemble_body framing", "assemble_body frames the body differently from what the headers announce: " + "; ".join(badab[:2]), desc="assemble_body: chunked frames + terminator exactly under chunked")
-    ctx.expect_instances("R01.4", 4 + 6 + 1)
+    ctx.expect_instances("R01.4", 4 + 6 + 1)  # (+ 2 reader-side instances recorded with R01.5 below)
 
-    # ---- R01.5
-    class H1Spec(GenericSpec):
-        def raises_into(self, stmt, handler_names, st):
-            return ["ValueError"] if "ValueError" in handler_names else []
+    # ---- R01.5 (+ the reader side of R01.4): read_headers of both connection classes is *interpreted* (mitmlint.pyint) in small
+    # worlds - the head parser / the framing decision raise ValueError, or they succeed with each expected size - and the yielded
+    # commands and the written attributes are judged.  Helpers (`self._send_error_page(..)`, `self.start_body(..)`), hoisted locals,
+    # named constants (status_codes.BAD_REQUEST) and import style are followed by the interpreter.  The stand-ins are anchored on the
+    # *definitions* read_request_head / read_response_head / expected_http_body_size / make_error_response / make_body_reader's readers.
+    CMDS = "mitmproxy/proxy/commands.py"
+    fn_mer = ctx.func(H1, "make_error_response")
+    fn_rq, fn_rs = ctx.func(READ, "read_request_head"), ctx.func(READ, "read_response_head")
+    ctx.func(H1, "make_body_reader")
+    ctx.trust("h11's ReceiveBuffer / body readers (stand-ins: one complete head is buffered; a reader asks for more data), commands and events are plain records")
 
-        def handler_event(self, handler, exc, st):
-            return ("handler", exc)
+    class _Boom:
+        def __init__(self):
+            self.n = 0
 
-    for qual, must, kind in (
-        ("Http1Server.read_headers", [("call", "make_error_response"), ("yield", "CloseConnection")], "RequestProtocolError"),
-        ("Http1Client.read_headers", [("yield", "CloseConnection"), ("yield", "ReceiveHttp")], "ResponseProtocolError"),
-    ):
+        def __call__(self, *a, **k):
+            self.n += 1
+            raise _PRaised("ValueError", "malformed")
+
+    def _names(out):
+        return [(c._cls + ":" + c.event._cls if isinstance(c, _PRec) and c._cls == "ReceiveHttp" and isinstance(getattr(c, "event", None), _PRec) else getattr(c, "_cls", repr(c))) for c in out]
+
+    for cls, head_fn, hdr_ev, err_ev in (("Http1Server", fn_rq, "RequestHeaders", "RequestProtocolError"), ("Http1Client", fn_rs, "ResponseHeaders", "ResponseProtocolError")):
+        qual = cls + ".read_headers"
         fn = ctx.func(H1, qual)
-        spec5 = H1Spec(keep=lambda e: e[0] in ("yield", "assign") or (e[0] == "call" and last_attr_text(e[1]) in ("make_body_reader", "make_error_response", kind)))
-        tr, _ = traces_of(fn, spec5)
-        err = [t for t, how, s in tr if ("handler", "ValueError") in t]
-        ctx.require(err, f"{qual}: no ValueError path")
-        for t in err:
-            after = t[t.index(("handler", "ValueError")):]
-            good = all(x in after for x in must) and not any(e[0] == "call" and e[1].endswith("make_body_reader") for e in after) and ("assign", "self.body_reader") not in after
-            if qual.startswith("Http1Server"):
-                good = good and ("assign", "self.state") in after
-            ctx.check(good, "R01.5", (H1, qual, fn), "except ValueError path", f"a malformed head must be answered/closed without starting a body reader; path: {[e for e in after][:8]}", desc=f"{qual}: parse error closes")
-    srv = ctx.func(H1, "Http1Server.read_headers")
-    hs = [h for n in walk_in_order(srv) if isinstance(n, ast.Try) for h in n.handlers]
-    ok400 = any(isinstance(c, ast.Call) and last_attr(c.func) == "make_error_response" and c.args and isinstance(c.args[0], ast.Constant) and c.args[0].value == 400 for h in hs for c in ast.walk(h))
-    okdone = any(isinstance(a, ast.Assign) and attr_chain(a.targets[0]) == "self.state" and attr_chain(a.value) == "self.done" for h in hs for a in ast.walk(h))
-    ctx.check(ok400 and okdone, "R01.5", (H1, "Http1Server.read_headers", srv), "400 + state=done", "malformed request is not answered with 400 and the connection state machine keeps parsing", desc="server: 400 and done")
-    ctx.expect_instances("R01.5", 3)
+        where = (H1, qual, fn)
+        server = cls == "Http1Server"
+
+        def world5():
+            conn = _PRec("Client" if server else "Server", _bases=("Connection",), state=3, peername=("192.0.2.7", 51234), sockname=("192.0.2.1", 8080))
+            req = _PRec("Request", method="GET", headers=headers_of(None, None), http_version="HTTP/1.1", is_http2=False, is_http3=False)
+            me = _PRec(cls, _bases=("Http1Connection", "HttpConnection", "Layer"), _impl=(H1, cls), conn=conn, request=None if server else req, response=None, stream_id=1,
+                       request_done=False, response_done=False, buf=_BufModel([b"GET / HTTP/1.1" if server else b"HTTP/1.1 200 OK", b"Host: example.org"]))
+            return me, conn
+
+        def interp5(head, size):
+            msg = _PRec("Request" if server else "Response", method="GET", status_code=200, headers=headers_of(None, None), http_version="HTTP/1.1", is_http2=False, is_http3=False)
+            head_stub = head if head is not None else (lambda *a, **k: msg)
+            size_stub = size if callable(size) else (lambda *a, **k: size)
+            return _RoleInterp(m, trusted_modules={"logging": _Log(), "h11": _H11Model},
+                               fstubs={id(head_fn): head_stub, id(fn_ebs): size_stub, id(fn_mer): lambda status_code, message="": ("error-response", status_code)})
+
+        def run5(it5, me, conn, via_state=False):
+            ev = _PRec("DataReceived", _bases=("ConnectionEvent", "Event"), connection=conn, data=b"")
+            try:
+                g = it5.apply(me.__dict__["state"], [ev], {}, 0) if via_state else it5.method(me, "read_headers", ev)
+                return list(g)
+            except _PRaised as r:
+                return [f"<raises {r.name}>"]
+
+        for wname, head, size in (("head does not parse", _Boom(), 0), ("framing cannot be decided", None, _Boom())):
+            me, conn = world5()
+            it5 = interp5(head, size)
+            object.__setattr__(me, "state", it5.getattr(me, "read_headers", None, 0))
+            out = run5(it5, me, conn)
+            boom = head if head is not None else size
+            ctx.require(boom.n > 0, f"{qual}: the interpreted path never reached the stubbed parser ({wname})")
+            names = _names(out)
+            ctx.paths += 1
+            closes = [c for c in out if isinstance(c, _PRec) and c._cls == "CloseConnection" and getattr(c, "connection", None) is conn]
+            started = "body_reader" in me.__dict__ or ("ReceiveHttp:" + hdr_ev in names and not server)
+            problems = []
+            if not closes:
+                problems.append("the connection is not closed")
+            if started:
+                problems.append("a body reader is started / the head is reported as good")
+            if server:
+                answers = [c.data for c in out if isinstance(c, _PRec) and c._cls == "SendData" and getattr(c, "connection", None) is conn]
+                if ("error-response", 400) not in answers:
+                    problems.append(f"the client is not answered with make_error_response(400, ..) (sent: {answers!r})")
+                # the state machine must be finished: whatever else is (or still sits) in the buffer is not parsed as a next request
+                me2_it = interp5(None, 0)
+                again = _names(run5(me2_it, me, conn, via_state=True))
+                if any(n.startswith("ReceiveHttp") for n in again) or "body_reader" in me.__dict__:
+                    problems.append(f"the connection keeps parsing after the error: the next data event yields {again}")
+            else:
+                if "ReceiveHttp:" + err_ev not in names:
+                    problems.append(f"no {err_ev} is reported to the stream")
+            ctx.check(not problems, "R01.5", where, f"parse error: {wname}", "a malformed head must be answered/closed without starting a body reader: " + "; ".join(problems) + f" (commands: {names[:6]})",
+                      desc=f"{qual}: {wname} -> closes, reports, no body reader")
+        # reader side of R01.4: a good head installs exactly the reader make_body_reader picks for the decided size and announces end_stream iff size == 0
+        badr = []
+        for size, want in ((None, "Chunked"), (-1, "Http10"), (0, ("ContentLength", 0)), (12, ("ContentLength", 12))):
+            me, conn = world5()
+            it5 = interp5(None, size)
+            object.__setattr__(me, "state", it5.getattr(me, "read_headers", None, 0))
+            out = run5(it5, me, conn)
+            ctx.cells += 1
+            heads = [c.event for c in out if isinstance(c, _PRec) and c._cls == "ReceiveHttp" and isinstance(getattr(c, "event", None), _PRec) and c.event._cls == hdr_ev]
+            got = _reader_key(me.__dict__.get("body_reader"))
+            if got != want:
+                badr.append(f"expected size {size!r}: body reader {got!r} (expected {want!r})")
+            elif len(heads) != 1 or bool(getattr(heads[0], "end_stream", None)) != (size == 0):
+                badr.append(f"expected size {size!r}: {hdr_ev} events {[(getattr(h, 'end_stream', None)) for h in heads]} (expected one, end_stream={size == 0})")
+        ctx.check(not badr, "R01.4", where, "body reader installed for the decided size", "the body is read with a different framing than expected_http_body_size decided: " + "; ".join(badr[:2]),
+                  desc=f"{qual}: reader == make_body_reader(expected size), end_stream iff 0")
+    ctx.expect_instances("R01.5", 4)
 
 
 def last_attr_text(s: str) -> str:
@@ -575,5 +1080,12 @@ MUTANTS = [
            '            if "chunked" in self.response.headers.get("transfer-encoding", "").lower():', "R01.4"),
     Mutant("server-terminator-for-head", H1, '                self.request.method.upper() != "HEAD"\n                and "chunked"', '                "chunked"', "R01.4"),
     Mutant("server-parse-error-keeps-reading", H1, "                    self.state = self.done\n                    return\n                yield ReceiveHttp(\n                    RequestHeaders(", "                    return\n                yield ReceiveHttp(\n                    RequestHeaders(", "R01.5"),
+    Mutant("server-parse-error-no-close", H1, "                    yield commands.SendData(self.conn, make_error_response(400, str(e)))\n                    yield commands.CloseConnection(self.conn)\n",
+           "                    yield commands.SendData(self.conn, make_error_response(400, str(e)))\n", "R01.5"),
+    Mutant("client-reader-ignores-decided-size", H1, "                self.body_reader = make_body_reader(expected_size)\n", "                self.body_reader = make_body_reader(None)\n", "R01.4"),
+    Mutant("server-headers-never-end-stream", H1, "                        self.stream_id, self.request, expected_body_size == 0\n", "                        self.stream_id, self.request, False\n", "R01.4"),
+    Mutant("content-length-str-unicode-digits", VAL, 're.compile(r"^(?:0|[1-9][0-9]*)$")', 're.compile(r"^\\d+$")', "R01.2"),
+    Mutant("header-name-search-unanchored-start", VAL, "if not _valid_header_name.match(name):", "if not _valid_header_name.search(name[1:]):", "R01.2"),
+    Mutant("response-validated-after-option-ignored", REL, "        elif self.context.options.validate_inbound_headers:\n            assert self.flow.response is not None", "        elif self.context.options.validate_inbound_headers and self.flow.response.is_http10:\n            assert self.flow.response is not None", "R01.3"),
     Mutant("client-parse-error-no-close", H1, "                except ValueError as e:\n                    yield commands.CloseConnection(self.conn)\n                    yield ReceiveHttp(\n                        ResponseProtocolError(", "                except ValueError as e:\n                    yield ReceiveHttp(\n                        ResponseProtocolError(", "R01.5"),
 ]
